@@ -177,7 +177,7 @@ class Run:
     # -- finish
     def finish(self, explanation, trusted_base, not_decided=(), exhaustive=False):
         viol = [o for o in self.obligations if not o['ok']]
-        outdir = os.path.join(VERIF, 'out', self.prop)
+        outdir = os.path.join(os.environ.get('VERIF_OUT_DIR', os.path.join(VERIF, 'out')), self.prop)
         os.makedirs(outdir, exist_ok=True)
         open_keys = {f['key']: f for f in self.known.get('open', []) if f.get('property') == self.prop}
         code = 0
@@ -221,6 +221,16 @@ class Run:
             'not_decided': list(not_decided),
         }
         cov.update(self.notes)
+        if self.tier == 'thorough':
+            import selftest
+            st = selftest.run_corpus(self.prop)
+            if st is not None:
+                cov['selftest'] = st
+                print('selftest %s: %d/%d mutants flagged, %d/%d refactors silent, %d skipped' % (self.prop, st['mutants_flagged'], st['mutants'], st['refactors_silent'], st['refactors'], st['skipped']))
+                for g_ in st['gaps']:
+                    print('  SENSITIVITY-GAP (checker): mutant %s not flagged as expected: %s' % (g_['id'], g_))
+                for g_ in st['false_alarms']:
+                    print('  FALSE-ALARM (checker): refactor %s flagged: %s' % (g_['id'], g_))
         ev = {
             'property_id': self.prop,
             'tier': self.tier,
@@ -231,10 +241,11 @@ class Run:
             'wall_s': round(time.time() - self.t0, 2),
             'violations': nviol,
         }
-        os.makedirs(os.path.join(VERIF, 'evidence'), exist_ok=True)
-        tmp = os.path.join(VERIF, 'evidence', '.%s.json.%d' % (self.prop, os.getpid()))
+        evdir = os.environ.get('VERIF_EVIDENCE_DIR', os.path.join(VERIF, 'evidence'))
+        os.makedirs(evdir, exist_ok=True)
+        tmp = os.path.join(evdir, '.%s.json.%d' % (self.prop, os.getpid()))
         json.dump(ev, open(tmp, 'w'), indent=1)
-        os.replace(tmp, os.path.join(VERIF, 'evidence', '%s.json' % self.prop))
+        os.replace(tmp, os.path.join(evdir, '%s.json' % self.prop))
         print('%s %s: %d obligations, %d discharged, %d violations, %d roots, %.1fs' % (
             self.prop, self.tier, n, n - len(viol), nviol, len(self.roots), time.time() - self.t0))
         return code
